@@ -1,5 +1,5 @@
 (* C01 — Accepted quotes are authentic: every link of the signature chain holds. *)
-From V Require Import Model.Verify Proofs.Abi Proofs.Verify.
+From V Require Import Model.Verify Model.Der Proofs.Abi Proofs.Verify Proofs.Der.
 
 (* Verification succeeds only if (1) the attestation key carried in the quote is a
    64-byte point on P-256 and the ECDSA-P256/SHA-256 signature in the quote
@@ -69,3 +69,18 @@ Section Meaning.
   Qed.
 End Meaning.
 Print Assumptions C01_no_unsigned_accept.
+
+(* The ECDSA oracle is asked about the raw 64-byte signatures r || s; the code
+   hands crypto/ecdsa the DER form produced by abi.SignatureToDER.  That
+   conversion is faithful and canonical: for every 64-byte signature the DER bytes
+   parse back, under the strict reading rules (minimal, non-negative INTEGERs,
+   nothing left over), to exactly the numbers r and s -- so the signature that is
+   verified is the one carried in the quote; other lengths are refused. *)
+Theorem C01_signature_encoding : forall sig, length sig = 64 ->
+  exists d, sig_to_der sig = Ok d /\
+            parse_der_sig d = Some (be_value (slice 0 32 sig), be_value (slice 32 64 sig)).
+Proof. exact sig_to_der_roundtrip. Qed.
+Theorem C01_signature_encoding_length : forall sig, length sig <> 64 -> sig_to_der sig = Err EParse.
+Proof. exact sig_to_der_rejects. Qed.
+Print Assumptions C01_signature_encoding.
+Print Assumptions C01_signature_encoding_length.
